@@ -30,6 +30,8 @@ import (
 	"github.com/megaease/easegress/pkg/filters"
 	"github.com/megaease/easegress/pkg/object/serviceregistry"
 	"github.com/megaease/easegress/pkg/protocols/httpprot"
+	"github.com/megaease/easegress/pkg/resilience"
+	"github.com/megaease/easegress/pkg/supervisor"
 	"github.com/megaease/easegress/pkg/tracing"
 )
 
@@ -130,6 +132,8 @@ type vfC04Pool struct {
 
 	retryPolicy  string
 	failureCodes []int
+	cbPolicy     string // name of a pipeline-level CircuitBreaker policy the pool refers to
+	registry     string // serviceRegistry name: the pool runs its own registry watcher (watchServers)
 }
 
 func (p *vfC04Pool) resetEpoch(known bool) {
@@ -179,6 +183,7 @@ type vfC04GenOpts struct {
 	forcePolicy    string // "" = draw
 	forceZero      bool   // all static weights zero
 	forceDiscovery bool
+	registry       string // serviceRegistry to name in the spec ("" = none: the harness calls useService)
 	retryPolicy    string // name of a pipeline-level Retry policy the pool refers to
 	failureCodes   []int
 }
@@ -198,7 +203,11 @@ func vfC04GenPool(rt *rapid.T, name string, idx int, o vfC04GenOpts) *vfC04Pool 
 		p.headerKey = rapid.SampledFrom([]string{"X-User", "X-User", "x-session", "X-User", ""}).Draw(rt, name+"-hkey")
 	}
 	p.discovery = rapid.IntRange(0, 9).Draw(rt, name+"-discovery") < 6 || o.forceDiscovery
-	p.retryPolicy, p.failureCodes = o.retryPolicy, o.failureCodes
+	p.retryPolicy, p.failureCodes, p.registry = o.retryPolicy, o.failureCodes, o.registry
+	if rapid.IntRange(0, 9).Draw(rt, name+"-circuitbreaker") >= 6 {
+		// a breaker that never trips (see vfC04Breaker): selection must be unaffected by it
+		p.cbPolicy = "vfcb"
+	}
 	lo := 1
 	if p.discovery {
 		lo = 0 // serviceName set: an empty static list passes validation
@@ -311,9 +320,15 @@ func (p *vfC04Pool) yaml(sb *strings.Builder) {
 		// serviceRegistry stays empty: the pool starts on its static list and the harness plays
 		// the registry watcher by calling useService (the call the watcher goroutine makes).
 		line("serviceName: vfsvc-%s", p.name)
+		if p.registry != "" {
+			line("serviceRegistry: %s", p.registry)
+		}
 	}
 	if p.retryPolicy != "" {
 		line("retryPolicy: %s", p.retryPolicy)
+	}
+	if p.cbPolicy != "" {
+		line("circuitBreakerPolicy: %s", p.cbPolicy)
 	}
 	if len(p.failureCodes) > 0 {
 		codes := make([]string, len(p.failureCodes))
@@ -341,17 +356,41 @@ func vfC04ProxyYAML(pools []*vfC04Pool) string {
 }
 
 // vfC04NewProxy pushes the YAML through the real acceptance path and initialises the filter.
-func vfC04NewProxy(y string) (*Proxy, error) {
+func vfC04NewProxy(y string, policies ...resilience.Policy) (*Proxy, error) {
+	return vfC04NewProxySuper(nil, y, policies...)
+}
+
+// vfC04Breaker is the pipeline-level CircuitBreaker policy "vfcb": built through the real
+// acceptance path, with a minimum number of calls that is never reached, so it stays closed
+// whatever the backends answer (the breaker's own contract is C08's business).
+func vfC04Breaker() (resilience.Policy, error) {
+	return resilience.NewPolicy(map[string]interface{}{"kind": "CircuitBreaker", "name": "vfcb",
+		"slidingWindowType": "COUNT_BASED", "slidingWindowSize": 10, "minimumNumberOfCalls": 4000000000,
+		"failureRateThreshold": 100})
+}
+
+// vfC04NewProxySuper: as Pipeline.reload does it, Init and then InjectResiliencePolicy with the
+// pipeline's policies ("vfcb" always exists, like a policy that only some pools refer to).
+func vfC04NewProxySuper(super *supervisor.Supervisor, y string, policies ...resilience.Policy) (*Proxy, error) {
 	raw := map[string]interface{}{}
 	if err := yaml.Unmarshal([]byte(y), &raw); err != nil {
 		return nil, err
 	}
-	spec, err := filters.NewSpec(nil, "", raw)
+	spec, err := filters.NewSpec(super, "", raw)
 	if err != nil {
 		return nil, err
 	}
+	cb, err := vfC04Breaker()
+	if err != nil {
+		return nil, err
+	}
+	pm := map[string]resilience.Policy{cb.Name(): cb}
+	for _, pol := range policies {
+		pm[pol.Name()] = pol
+	}
 	px := kind.CreateInstance(spec).(*Proxy)
 	px.Init()
+	px.InjectResiliencePolicy(pm)
 	return px, nil
 }
 
